@@ -6,10 +6,10 @@ RowsT == <<[key |-> <<0>>, n |-> 2], [key |-> <<0, 1>>, n |-> 3], [key |-> <<1>>
 Layouts == { <<>>, << <<1>> >>, << <<0, 1>>, <<1, 0>> >>, << <<0, 0>> >> }
 FwdRanges == { [a |-> <<>>, b |-> <<>>], [a |-> <<0, 1>>, b |-> <<1, 0>>], [a |-> <<0, 0>>, b |-> <<1>>], [a |-> <<1>>, b |-> <<>>] }
 RevRanges == { [a |-> <<1, 0>>, b |-> <<0>>], [a |-> <<1, 0, 0>>, b |-> <<>>], [a |-> <<1>>, b |-> <<0, 1>>], [a |-> <<0, 1, 7>>, b |-> <<>>] }
-CONSTANT PartialModes
-Configs == {[rows |-> RowsT, splits |-> l, start |-> r.a, stop |-> r.b, reversed |-> FALSE, partial |-> p] : l \in Layouts, r \in FwdRanges, p \in PartialModes}
-      \cup {[rows |-> RowsT, splits |-> l, start |-> r.a, stop |-> r.b, reversed |-> TRUE, partial |-> p] : l \in Layouts, r \in RevRanges, p \in PartialModes}
+CONSTANTS PartialModes, RenewModes
+Configs == {[rows |-> RowsT, splits |-> l, start |-> r.a, stop |-> r.b, reversed |-> FALSE, partial |-> p, renew |-> rn] : l \in Layouts, r \in FwdRanges, p \in PartialModes, rn \in RenewModes}
+      \cup {[rows |-> RowsT, splits |-> l, start |-> r.a, stop |-> r.b, reversed |-> TRUE, partial |-> p, renew |-> rn] : l \in Layouts, r \in RevRanges, p \in PartialModes, rn \in RenewModes}
 Init == cfg \in Configs /\ InitRest
 Spec == Init /\ [][NextC]_vars
-View == <<cfg, scn, nextId, startRow, curId, curReg, buf, closed, pc, acc, opening, outs, closeSent, cancelled, errors, ctxReported, userClosed, earlyEnded>>
+View == <<cfg, scn, nextId, startRow, curId, curReg, buf, closed, renewing, renewId, ticks, orphans, pc, acc, opening, outs, closeSent, cancelled, errors, ctxReported, userClosed, earlyEnded>>
 =============================================================================
